@@ -716,12 +716,14 @@ Proof.
 Qed.
 
 (* unlink_conn_node removes qo from the list of the (unique) connection that has it *)
-Lemma unlink_run x s qo :
-  InvX x s ->
+Lemma unlink_run_gen s qo :
+  heap_ok s ->
+  (forall co1 c1 co2 c2, cell_of s co1 = Some (CConn c1) -> In qo (c_queries c1) ->
+                         cell_of s co2 = Some (CConn c2) -> In qo (c_queries c2) -> co1 = co2) ->
   exists cells', unlink_conn_node qo s = Ok (tt, set_cells cells' s)
     /\ forall o, cell_of (set_cells cells' s) o = option_map (strip qo) (cell_of s o).
 Proof.
-  intros I. pose proof (inv_heap _ _ I) as Hh. unfold unlink_conn_node.
+  intros Hh Huniq. unfold unlink_conn_node.
   match goal with |- context [find ?f ?l] => destruct (find f l) as [co|] eqn:F end.
   - apply find_some in F. destruct F as [_ F].
     destruct (lookup co (st_cells s)) as [[q|c|h|]|] eqn:L; try discriminate.
@@ -738,7 +740,7 @@ Proof.
     + apply Nat.eqb_eq in E. subst. rewrite Hc. reflexivity.
     + destruct (cell_of s o) as [c'|] eqn:Ho; simpl; auto. f_equal. symmetry. apply strip_notin.
       intros cc -> Hin. apply Nat.eqb_neq in E. apply E.
-      eapply conn_of_query_unique; eauto.
+      eapply Huniq; eauto.
   - exists (st_cells s). split.
     + destruct s; reflexivity.
     + intros o. replace (set_cells (st_cells s) s) with s by (destruct s; reflexivity).
@@ -748,6 +750,15 @@ Proof.
       unfold cell_of in Ho. rewrite Ho in Fn.
       assert (Hk : In o (map fst (st_cells s))) by (eapply lookup_in_keys; eauto).
       specialize (Fn Hk). apply memb_false in Fn. contradiction.
+Qed.
+
+Lemma unlink_run x s qo :
+  InvX x s ->
+  exists cells', unlink_conn_node qo s = Ok (tt, set_cells cells' s)
+    /\ forall o, cell_of (set_cells cells' s) o = option_map (strip qo) (cell_of s o).
+Proof.
+  intros I. apply unlink_run_gen. exact (inv_heap _ _ I).
+  intros. eapply conn_of_query_unique; eauto.
 Qed.
 
 (* O5: ares_query_remove_from_conn *)
@@ -1455,4 +1466,133 @@ Proof.
         -- rewrite H1. reflexivity.
     + intros o cc H1 H2. eexists. split; [apply Hconn; exists cc; split; [exact H1|reflexivity]|]. simpl. auto.
     + exact Hnx.
+Qed.
+
+(* objects named in a frame that were rooted before need not be named *)
+Lemma frame_shrink s s' L :
+  Frame s s' L -> (forall x c, In x L -> cell_of s x = Some c -> rooted s x) -> Frame s s' [].
+Proof.
+  intros F H. constructor.
+  - intros x c Hc Hr _. apply (fr_cell _ _ _ F _ _ Hc Hr). intros Hin. apply Hr. eapply H; eauto.
+  - exact (fr_reading _ _ _ F).
+  - exact (fr_next _ _ _ F).
+Qed.
+
+Lemma chain_of_linked s qo q : In qo (linked s) -> cell_of s qo = Some (CQuery q) -> incl (cobjs (q_cb q)) (chain s).
+Proof.
+  intros Hl Hq o Ho. unfold chain. apply in_flat_map. exists qo. split; auto. unfold qchain. rewrite Hq. exact Ho.
+Qed.
+
+(* frames for the connection operations *)
+Lemma free_conn_frame s co c :
+  Inv s -> cell_of s co = Some (CConn c) -> c_queries c = [] -> ~ In co (st_conns s) -> c_reading c = false ->
+  Frame s (free_st co s) [co].
+Proof.
+  intros I Hc Eq Hn Hr.
+  destruct (free_conn_ok s co c I Hc Eq Hn) as [_ [Ech [Ell Hsame]]].
+  constructor.
+  - intros o c1 H1 H2 H3. assert (Hne : o <> co) by (intros ->; apply H3; left; auto).
+    assert (H4 : ~ rooted (free_st co s) o).
+    { unfold rooted. rewrite Ell, Ech. exact H2. }
+    rewrite (Hsame _ Hne). destruct c1; auto. exists c0. repeat split; auto. apply incl_refl.
+  - intros o cc H1 H2. assert (Hne : o <> co) by (intros ->; rewrite Hc in H1; inversion H1; subst; congruence).
+    exists cc. rewrite (Hsame _ Hne). auto.
+  - simpl. lia.
+Qed.
+
+Lemma store_conn_frame x s co c c' :
+  InvX x s -> cell_of s co = Some (CConn c) ->
+  c_queries c' = c_queries c -> c_sock c' = c_sock c -> c_reading c' = c_reading c ->
+  (c_closed c' = true -> ~ In co (st_conns s) /\ c_queries c = []) ->
+  (In co (st_conns s) -> c_closed c' = false) ->
+  Frame s (store_st co (CConn c') s) [co].
+Proof.
+  intros I Hc Eq Es Er H1 H2.
+  destruct (store_conn_flags_ok x s co c c' I Hc Eq Es H1 H2) as [_ [Ech [Ell [Hsame Hco]]]].
+  constructor.
+  - intros o c1 G1 G2 G3. assert (Hne : o <> co) by (intros ->; apply G3; left; auto).
+    assert (G4 : ~ rooted (store_st co (CConn c') s) o).
+    { unfold rooted. rewrite Ell, Ech. exact G2. }
+    rewrite (Hsame _ Hne). destruct c1; auto. exists c0. repeat split; auto. apply incl_refl.
+  - intros o cc G1 G2. destruct (Nat.eq_dec o co) as [->|Hne].
+    + rewrite Hc in G1. inversion G1; subst. exists c'. rewrite Hco. repeat split; auto. congruence.
+    + exists cc. rewrite (Hsame _ Hne). auto.
+  - simpl. lia.
+Qed.
+
+Lemma find_conn_by_sock_ok x s sock :
+  InvX x s ->
+  exists r, find_conn_by_sock sock s = Ok (r, s)
+    /\ (forall co, r = Some co -> In co (st_conns s) /\ exists c, cell_of s co = Some (CConn c) /\ c_closed c = false).
+Proof.
+  intros I. unfold find_conn_by_sock. eexists. split; [reflexivity|].
+  intros co H. apply find_some in H. destruct H as [H1 H2]. split; auto.
+  destruct (inv_conns _ _ I) as [_ Hc]. exact (Hc _ H1).
+Qed.
+
+Lemma attach_run s qo q co c tcp :
+  Inv s -> In qo (linked s) -> cell_of s qo = Some (CQuery q) ->
+  In co (st_conns s) -> cell_of s co = Some (CConn c) -> c_closed c = false ->
+  exists s', attach_frag qo co tcp s = Ok (tt, s') /\ Inv s' /\ Frame s s' []
+    /\ linked s' = linked s /\ st_conns s' = st_conns s /\ st_tape s' = st_tape s
+    /\ st_scripts s' = st_scripts s /\ st_byqid s' = st_byqid s.
+Proof.
+  intros I Hl Hq Hin Hc Hncl.
+  pose proof (inv_heap _ _ I) as Hh.
+  assert (Hne : co <> qo) by (intros ->; rewrite Hq in Hc; discriminate).
+  unfold attach_frag.
+  set (s1 := set_bytmo (remove_nat qo (st_bytmo s) ++ [qo]) s).
+  assert (E1 : modify (fun s0 => set_bytmo (remove_nat qo (st_bytmo s0) ++ [qo]) s0) s = Ok (tt, s1)) by reflexivity.
+  rewrite (mbind_run _ _ _ _ _ E1).
+  assert (Hh1 : heap_ok s1) by exact Hh.
+  destruct (unlink_run_gen s1 qo Hh1) as [cells' [E2 Hc2]].
+  { intros co1 c1 co2 c2 H1 H2 H3 H4. eapply (conn_of_query_unique None s); eauto. }
+  rewrite (mbind_run _ _ _ _ _ E2).
+  set (s2 := set_cells cells' s1) in *.
+  assert (Hcell2 : forall o, cell_of s2 o = option_map (strip qo) (cell_of s o)) by exact Hc2.
+  assert (Hh2 : heap_ok s2).
+  { destruct Hh as [Ha Hb]. split.
+    - intros o c0 H. rewrite Hcell2 in H. destruct (cell_of s o) as [c1|] eqn:Ho; simpl in H; [|discriminate].
+      exact (Ha _ _ Ho).
+    - exact Hb. }
+  set (c2 := set_c_queries (remove_nat qo (c_queries c)) c).
+  assert (Hco2 : cell_of s2 co = Some (CConn c2)) by (rewrite Hcell2, Hc; reflexivity).
+  assert (E3 : get_conn co s2 = Ok (c2, s2)).
+  { unfold get_conn, mbind. rewrite (touch_run _ _ _ Hh2 Hco2). reflexivity. }
+  set (c3 := set_c_queries (remove_nat qo (c_queries c) ++ [qo]) c).
+  assert (E4 : (let! c0 := get_conn co in store co (CConn (set_c_queries (c_queries c0 ++ [qo]) c0))) s2
+               = Ok (tt, store_st co (CConn c3) s2)).
+  { rewrite (mbind_run _ _ _ _ _ E3). rewrite (store_run _ _ _ _ Hh2 Hco2). reflexivity. }
+  rewrite (mbind_run _ _ _ _ _ E4).
+  set (s3 := store_st co (CConn c3) s2).
+  assert (Hh3 : heap_ok s3) by (eapply heap_store; eauto).
+  assert (Hq3 : cell_of s3 qo = Some (CQuery q)).
+  { unfold s3. rewrite cell_store. apply Nat.eqb_neq in Hne. rewrite Nat.eqb_sym, Hne. rewrite Hcell2, Hq. reflexivity. }
+  assert (E5 : get_query qo s3 = Ok (q, s3)).
+  { unfold get_query, mbind. rewrite (touch_run _ _ _ Hh3 Hq3). reflexivity. }
+  rewrite (mbind_run _ _ _ _ _ E5).
+  set (q' := set_q_conn (Some co) (set_q_tcp tcp q)).
+  rewrite (store_run _ _ _ (CQuery q') Hh3 Hq3).
+  set (s4 := store_st qo (CQuery q') s3).
+  exists s4. split; [reflexivity|].
+  destruct (attach_ext s s4 qo q co c q' I Hl Hq Hc Hncl Hin) as [I4 [F4 [_ Ell]]]; try reflexivity.
+  - eapply heap_store; eauto.
+  - intros o. unfold s4. rewrite cell_store. destruct (Nat.eqb o qo) eqn:E; auto.
+    unfold s3. rewrite cell_store. destruct (Nat.eqb o co) eqn:E'; auto.
+  - split; [exact I4|]. split; [exact F4|]. split; [exact Ell|]. repeat split.
+Qed.
+
+Lemma frame_restrict s s' L L' :
+  Frame s s' L -> (forall x c, In x L -> ~ In x L' -> cell_of s x = Some c -> rooted s x) -> Frame s s' L'.
+Proof.
+  intros F H. constructor.
+  - intros x c Hc Hr Hn. apply (fr_cell _ _ _ F _ _ Hc Hr). intros Hin. apply Hr. eapply H; eauto.
+  - exact (fr_reading _ _ _ F).
+  - exact (fr_next _ _ _ F).
+Qed.
+
+Lemma fresh_dead x s : InvX x s -> cell_of s (st_next s) = None.
+Proof.
+  intros I. destruct (cell_of s (st_next s)) eqn:E; auto.
+  pose proof (live_lt _ _ _ (inv_heap _ _ I) E). lia.
 Qed.
